@@ -1,6 +1,9 @@
 package scen
 
 import (
+	"encoding/hex"
+
+	"github.com/libp2p/go-libp2p/core/crypto"
 	"encoding/json"
 	"fmt"
 	"strings"
@@ -205,7 +208,11 @@ func runC04Case(c c04Case) (string, []explore.Violation) {
 		}()
 	}
 	foreign := mut.LogID != w.Addr
-	judged := misaddressed || badSig || foreign
+	// the identity block carries two signatures of its own (id by the identity's key; key + that signature by
+	// the key the id is derived from): an "orbitdb" identity block whose signatures do not verify against the
+	// block's content is tampered content as well (checked here by the harness's own verification)
+	badIdentity := !misaddressed && m.identity && mut.Identity != nil && mut.Identity.Type == "orbitdb" && !identityBlockGenuine(mut.Identity)
+	judged := misaddressed || badSig || foreign || badIdentity
 	var announce []*entry.Entry
 	sender := w.N
 	switch c.Delivery {
@@ -253,6 +260,8 @@ func runC04Case(c c04Case) (string, []explore.Violation) {
 		class = "bad-signature"
 	case foreign:
 		class = "foreign"
+	case badIdentity:
+		class = "bad-identity-signature"
 	}
 	if judged && merged {
 		bad("tampered-entry-merged:"+class+":"+fieldOf(m.name), fmt.Sprintf("victim log %v", afterSet))
@@ -277,6 +286,31 @@ func runC04Case(c c04Case) (string, []explore.Violation) {
 		}
 	}
 	return fmt.Sprintf("%s merged=%v", class, merged), vs
+}
+
+// identityBlockGenuine re-verifies the two signatures of an "orbitdb" identity block.
+func identityBlockGenuine(id *idp.Identity) bool {
+	if id == nil || id.Signatures == nil {
+		return false
+	}
+	pk, err := crypto.UnmarshalSecp256k1PublicKey(id.PublicKey)
+	if err != nil {
+		return false
+	}
+	if ok, err := pk.Verify([]byte(id.ID), id.Signatures.ID); err != nil || !ok {
+		return false
+	}
+	raw, err := hex.DecodeString(id.ID)
+	if err != nil {
+		return false
+	}
+	idKey, err := crypto.UnmarshalSecp256k1PublicKey(raw)
+	if err != nil {
+		return false
+	}
+	msg := []byte(hex.EncodeToString(append(append([]byte{}, id.PublicKey...), id.Signatures.ID...)))
+	ok, err := idKey.Verify(msg, id.Signatures.PublicKey)
+	return err == nil && ok
 }
 
 // genuineAt returns the genuine entry whose address is c (or the target if none matches).
@@ -342,7 +376,7 @@ func fieldOf(mutName string) string {
 func init() {
 	explore.Register(&explore.CheckDef{
 		ID: "C04", Level: "exploration",
-		Rule:   "full cross product on fresh worlds: valid entry {root, chain member with refs, merge entry with two nexts} x 32 single-field mutations of its wire form (payload, clock time x4, clock id x2, next x3, refs, key x3, signature x3, log id x2, v x2, identity fields x6, claimed hash x5 incl. same-digest aliases with another codec or CID version) x delivery {announced with the original claimed hash, announced with recomputed hash, stored as a block and referenced as ancestor by an authorised colluder's valid head} x route {sync, topic, direct channel} x victim pre-state {empty, already holds the valid entries}. The harness classifies each mutant independently (content does not hash to the claimed address; the dependency's signature verification over the mutated content fails; log id differs); mutants in a class must be absent from log and view and the held entries and view unchanged; mutants in no class (identity-block mutations, judged by C03) are recorded only. Plus: the genuine head of another database of the same writer with a history of 1, 2, 3, 5 entries x route x pre-state; no foreign entry may be exposed. Non-trivial = judged mutants.",
+		Rule:   "full cross product on fresh worlds: valid entry {root, chain member with refs, merge entry with two nexts} x 32 single-field mutations of its wire form (payload, clock time x4, clock id x2, next x3, refs, key x3, signature x3, log id x2, v x2, identity fields x6, claimed hash x5 incl. same-digest aliases with another codec or CID version) x delivery {announced with the original claimed hash, announced with recomputed hash, stored as a block and referenced as ancestor by an authorised colluder's valid head} x route {sync, topic, direct channel} x victim pre-state {empty, already holds the valid entries}. The harness classifies each mutant independently (content does not hash to the claimed address; the dependency's signature verification over the mutated content fails; log id differs); mutants in a class must be absent from log and view and the held entries and view unchanged; an \"orbitdb\" identity block whose own two signatures do not verify (re-verified by the harness) is a class as well; mutants in no class (identity type changes, judged by C03) are recorded only. Plus: the genuine head of another database of the same writer with a history of 1, 2, 3, 5 entries x route x pre-state; no foreign entry may be exposed. Non-trivial = judged mutants.",
 		Units:  func(tier string) []explore.Unit { return explore.ChunkUnits("c04", 16) },
 		Budget: func(tier string) float64 { return 400 },
 		RunUnit: func(c *explore.Ctx) {
@@ -351,7 +385,7 @@ func init() {
 			ms := mutations()
 			for _, cs := range c04Cases() {
 				cs := cs
-				cases = append(cases, explore.Case{ID: cs.ID(), Nontrivial: !ms[cs.Mut].identity, Run: func() (string, []explore.Violation) { return runC04Case(cs) }})
+				cases = append(cases, explore.Case{ID: cs.ID(), Nontrivial: ms[cs.Mut].name != "identity.type=other", Run: func() (string, []explore.Violation) { return runC04Case(cs) }})
 			}
 			for _, k := range []int{1, 2, 3, 5} {
 				for _, r := range []string{"sync", "topic", "direct"} {
